@@ -6,6 +6,7 @@ import (
 	"go/token"
 	"go/types"
 	"sort"
+	"strings"
 
 	"golang.org/x/tools/go/ssa"
 )
@@ -55,6 +56,37 @@ func constArray(a *ssa.Alloc) ([]byte, bool) {
 	}
 	out := make([]byte, arr.Len())
 	set := make([]bool, arr.Len())
+	// a named array initialised from a composite literal: *a = *lit, once
+	var whole []*ssa.Store
+	for _, ref := range *a.Referrers() {
+		if st, ok := ref.(*ssa.Store); ok && st.Addr == ssa.Value(a) {
+			whole = append(whole, st)
+		}
+	}
+	if len(whole) == 1 {
+		if ld, ok := whole[0].Val.(*ssa.UnOp); ok && ld.Op == token.MUL {
+			if lit, ok := ld.X.(*ssa.Alloc); ok && lit != a {
+				for _, ref := range *a.Referrers() {
+					switch r := ref.(type) {
+					case *ssa.Store:
+						if r != whole[0] {
+							return nil, false
+						}
+					case *ssa.IndexAddr:
+						for _, r2 := range *r.Referrers() {
+							if _, isSt := r2.(*ssa.Store); isSt {
+								return nil, false
+							}
+						}
+					case *ssa.Slice, *ssa.UnOp, *ssa.DebugRef:
+					default:
+						return nil, false
+					}
+				}
+				return constArray(lit)
+			}
+		}
+	}
 	for _, ref := range *a.Referrers() {
 		switch r := ref.(type) {
 		case *ssa.IndexAddr:
@@ -105,6 +137,10 @@ func constPrefix(x ssa.Value, seen map[ssa.Value]bool) (prefix []byte, neutral b
 		return nil, false
 	case *ssa.Call:
 		if b, ok := v.Call.Value.(*ssa.Builtin); ok && b.Name() == "append" {
+			// appending to an empty (pre-sized) buffer: the prefix is what is appended first
+			if isEmptySlice(v.Call.Args[0]) && len(v.Call.Args) == 2 {
+				return constPrefix(v.Call.Args[1], seen)
+			}
 			return constPrefix(v.Call.Args[0], seen)
 		}
 		return nil, false
@@ -174,7 +210,7 @@ func (nt *nodeTypes) classifyHashValue(fn *ssa.Function, rv ssa.Value, depth int
 		}
 	case *ssa.Call:
 		if v.Call.IsInvoke() {
-			if v.Call.Method.Name() == "hashCode" {
+			if methodIs(v.Call.Method, "hashCode") {
 				return hashClass{kind: "delegate", why: "returns hashCode of another node"}
 			}
 			break
@@ -187,7 +223,7 @@ func (nt *nodeTypes) classifyHashValue(fn *ssa.Function, rv ssa.Value, depth int
 			p, _ := constPrefix(v.Call.Args[0], map[ssa.Value]bool{})
 			return hashClass{kind: "digest", tag: p, input: v.Call.Args[0]}
 		}
-		if sf.Name() == "hashCode" && fnPkg(sf) == nt.pkg.Pkg {
+		if nt.w.fnIs(sf, "hashCode") && fnPkg(sf) == nt.pkg.Pkg {
 			return hashClass{kind: "delegate", why: "returns hashCode of a converted receiver"}
 		}
 		if fnPkg(sf) == nt.pkg.Pkg && sf.Blocks != nil && depth < 3 {
@@ -328,6 +364,13 @@ func ruleHashCover(w *World, r *Report, nt *nodeTypes) {
 						hasKey = true
 					}
 				}
+				// the key set taken with the library's maps.Keys(receiver)
+				if c, ok := v.(*ssa.Call); ok && len(c.Call.Args) == 1 && strip(c.Call.Args[0]) == ssa.Value(recv) {
+					switch name := calleeFullName(c); {
+					case strings.HasPrefix(name, "maps.Keys"), strings.HasPrefix(name, "golang.org/x/exp/maps.Keys"):
+						hasKey = true
+					}
+				}
 			}
 			r.Check(hasVal && hasKey, rule, key, pos, "digest input covers every key and the hashCode of every value",
 				fmt.Sprintf("digest input does not cover everything Equals compares (keys covered: %v, value hashCodes covered: %v): objects that differ there are equal members of a set", hasKey, hasVal))
@@ -339,10 +382,39 @@ func ruleHashCover(w *World, r *Report, nt *nodeTypes) {
 			}
 			has := false
 			for v := range vis {
-				if c, ok := v.(*ssa.Call); ok && isHashCodeCall(c) {
+				c, ok := v.(*ssa.Call)
+				if !ok {
+					continue
+				}
+				if isHashCodeCall(c) {
 					if rv, _ := callArgs(c); rv != nil && d.HasRoot(rv, recv) {
 						has = true
 					}
+					continue
+				}
+				// a helper of the package that is handed the receiver and takes
+				// the element digests itself (e.g. a members-by-digest map)
+				g := staticCallee(c)
+				if g == nil || g.Blocks == nil || fnPkg(g) != nt.pkg.Pkg || len(c.Call.Args) != len(g.Params) {
+					continue
+				}
+				for j, a := range c.Call.Args {
+					if !d.HasRoot(a, recv) {
+						continue
+					}
+					dg := NewDeriv(w, g)
+					allInstrs(g, func(in ssa.Instruction) {
+						if hc, ok := in.(*ssa.Call); ok && isHashCodeCall(hc) {
+							if rv, _ := callArgs(hc); rv != nil && dg.HasRoot(rv, g.Params[j]) {
+								// and the digest reaches what the helper returns
+								for _, ret := range returnsOf(g) {
+									if dg.Visited(ret.Results[0])[hc] {
+										has = true
+									}
+								}
+							}
+						}
+					})
 				}
 			}
 			r.Check(has, rule, key, pos, "digest input covers the hashCode of every element",
@@ -359,10 +431,10 @@ func ruleHashCover(w *World, r *Report, nt *nodeTypes) {
 
 func isHashCodeCall(c *ssa.Call) bool {
 	if c.Call.IsInvoke() {
-		return c.Call.Method.Name() == "hashCode"
+		return methodIs(c.Call.Method, "hashCode")
 	}
 	sf := staticCallee(c)
-	return sf != nil && sf.Name() == "hashCode"
+	return sf != nil && canonFnName(sf) == "hashCode"
 }
 
 // rangesOver: ex extracts from a Next whose iterator ranges over recv.
@@ -645,4 +717,48 @@ func isRangeIndex(v ssa.Value) bool {
 		}
 	}
 	return false
+}
+
+// ruleHashEq — digest equality stands in for equality only where the design
+// says so. Comparing two hashCode results with == / != decides "same value"
+// up to the hash's domain separation (known finding K1: strings and numbers
+// share a domain); the set and multiset types are built on that, every other
+// type decides sameness with Equals. A hashCode comparison in a function of
+// another type moves the ordered types onto the weaker equivalence.
+func ruleHashEq(w *World, r *Report, nt *nodeTypes) {
+	const rule = "R-HASHEQ"
+	n := 0
+	for _, fn := range w.FuncsOf(nt.pkg) {
+		k := 0
+		allInstrs(fn, func(in ssa.Instruction) {
+			bo, ok := in.(*ssa.BinOp)
+			if !ok || (bo.Op != token.EQL && bo.Op != token.NEQ) || !isDigestType(bo.X.Type()) {
+				return
+			}
+			isHC := func(v ssa.Value) bool {
+				c, ok := strip(v).(*ssa.Call)
+				return ok && isHashCodeCall(c)
+			}
+			if !isHC(bo.X) || !isHC(bo.Y) {
+				return
+			}
+			n++
+			k++
+			top := fn
+			for top.Parent() != nil {
+				top = top.Parent()
+			}
+			recv := ""
+			if top.Signature.Recv() != nil {
+				recv = typeName(top.Signature.Recv().Type())
+			}
+			r.Fn(fnName(top))
+			r.Check(recv == "jsonSet" || recv == "jsonMultiset", rule, fmt.Sprintf("%s:hash-comparison#%d", fnName(fn), k), w.Pos(bo.Pos()),
+				"digest equality is used as equality inside the set / multiset implementation only",
+				"two hashCode results are compared to decide sameness outside the set / multiset implementation: an ordered type now inherits the hash's weaker equivalence (values of different JSON types with byte-identical hash input count as unchanged)")
+		})
+	}
+	if n == 0 {
+		r.Ok(rule, nt.tag+":no-hash-comparison", "-", "no two hashCode results are compared anywhere in the package")
+	}
 }
